@@ -139,6 +139,9 @@ def catalogue():
         ("client-sends-delProperty", '<delProperty device="DEV" name="TEXT_V"/>', set()),
         ("client-sends-delProperty-device", '<delProperty device="DEV"/>', set()),
         ("client-sends-message", '<message device="DEV" message="hi"/>', set()),
+        ("client-sends-message-without-device", '<message message="hi"/>', set()),
+        ("client-sends-message-with-timestamp-only", '<message device="DEV" timestamp="2024-01-02T03:04:05"/>', set()),
+        ("client-sends-pingRequest", '<pingRequest uid="u1"/>', set()),
         ("client-sends-pingRequest", '<pingRequest uid="1"/>', set()),
         ("client-sends-pingReply", '<pingReply uid="1"/>', set()),
         ("enableBLOB-unknown-device", '<enableBLOB device="NOPE">Also</enableBLOB>', set()),
@@ -297,6 +300,15 @@ async def session(ctx, case, fault, transport, position, frag):
         specs = [make_spec(), other_spec()]
         drivers = [D.build(s)(router=router) for s in specs]
         sess = stack.Session(router)
+        # the second driver snoops the first one, sometimes the whole device, sometimes single properties: its in-process client
+        # is one more recipient of whatever a hostile client makes the router relay
+        how = (position + len(label)) % 3
+        if how == 1:
+            drivers[1].snoop_device(specs[0]["name"])
+        elif how == 2:
+            drivers[1].snoop_device(specs[0]["name"], "TEXT_V")
+            drivers[1].snoop_device(specs[0]["name"], "NUMBER_V")
+        ctx.count("sessions_with_a_snooping_driver" if how else "sessions_without_a_snooping_driver")
         conn = Conn(transport, router, sess, tap)
         other = Conn("tcp", router, sess, tap)
         await sess.quiesce()
